@@ -91,7 +91,8 @@ Simple(op, r, s, page, K, F) ==
 UnmapAct == \E s \in SizeClass : \E page \in Pages(s) :
                 Simple("unmap", UnmapSem(ent, amap, s, page), s, page, 0, {})
 UpdateAct == \E s \in SizeClass : \E page \in Pages(s) : \E F \in LeafFs :
-                Simple("update", UpdateSem(ent, amap, s, page, F), s, page, 0, F)
+                /\ FlagsPre(s, page, F)           \* the PAT bit only on huge leaves
+                /\ Simple("update", UpdateSem(ent, amap, s, page, F), s, page, 0, F)
 SetFlagsAct == \E s \in SizeClass : \E page \in Pages(s) : \E K \in 2 .. 4 : \E F \in ParentFs :
                 Simple("setflags", SetFlagsSem(ent, amap, s, page, K, F), s, page, K, F)
 TranslatePageAct == \E s \in SizeClass : \E page \in Pages(s) :
